@@ -240,6 +240,8 @@ class Gen:
                 ln = len(cur) - 1
                 lim = t[2]
                 c = self.pick_listop(mode, ln, lim)
+                if c == 'none':
+                    continue
                 if c == 'app':
                     x = self.val(t[1], 6)
                     ops.append(['app', x])
@@ -255,6 +257,8 @@ class Gen:
             elif k == 'bl':
                 ln = len(cur) - 1
                 c = self.pick_listop(mode, ln, t[1])
+                if c == 'none':
+                    continue
                 if c == 'app':
                     b = r.choice('01')
                     ops.append(['app', b])
@@ -286,7 +290,7 @@ class Gen:
     def pick_listop(self, mode, ln, lim):
         r = self.rng
         if ln == 0:
-            return 'app' if lim > 0 else 'pop'
+            return 'app' if lim > 0 else 'none'
         if ln >= lim:
             return r.choice(['pop', 'set'])
         if mode == 'grow':
